@@ -115,6 +115,56 @@ func (w *World) SharedTypes() map[*types.Named]string {
 			}
 		}
 	}
+	// objects held by package-level variables are shared by every call in the process: a variable of a module
+	// struct type (or pointer to one) contributes that type, a variable of a module interface type contributes the
+	// module struct types implementing it (e.g. the attribute filters behind util.BytesFilter).
+	nodes := w.NodeTypes()
+	var paths []string
+	for p := range w.SPkgs {
+		paths = append(paths, p)
+	}
+	sort.Strings(paths)
+	for _, p := range paths {
+		var names []string
+		for name := range w.SPkgs[p].Members {
+			names = append(names, name)
+		}
+		sort.Strings(names)
+		for _, name := range names {
+			g, ok := w.SPkgs[p].Members[name].(*ssa.Global)
+			if !ok {
+				continue
+			}
+			n := namedOf(deref(g.Type()))
+			if n == nil {
+				n = namedOf(deref(deref(g.Type())))
+			}
+			if n == nil || n.Obj().Pkg() == nil {
+				continue
+			}
+			if _, inMod := w.Pkgs[n.Obj().Pkg().Path()]; !inMod {
+				continue
+			}
+			add := func(t *types.Named, why string) {
+				if _, isS := t.Underlying().(*types.Struct); !isS {
+					return
+				}
+				if _, isNode := nodes[t]; isNode {
+					return
+				}
+				if _, has := set[t]; !has {
+					set[t] = why
+				}
+			}
+			if it, isI := n.Underlying().(*types.Interface); isI {
+				for _, t := range w.Implementers(it) {
+					add(t, "may be held by package-level variable "+g.Name()+" ("+typeShort(n)+")")
+				}
+			} else {
+				add(n, "held by package-level variable "+g.Name())
+			}
+		}
+	}
 	w.closeOverFields(set)
 	// node types are never configuration, even if an option type embeds one (none today)
 	for t := range w.NodeTypes() {
